@@ -204,6 +204,8 @@ def gen_pstruct(rng):
     a = gen_int(rng)
     if rng.random() < 0.5:
         return Pat(f"P {{ x: {a.src}, .. }}", lambda v, b, a=a: a.ev(v[0], b), simple=False)
+    if rng.random() < 0.3:
+        return Pat(f"P {{ y: {a.src}, .. }}", lambda v, b, a=a: a.ev(v[1], b), simple=False)
     c = gen_int(rng)
     return Pat(f"P {{ x: {a.src}, y: {c.src} }}", lambda v, b, a=a, c=c: a.ev(v[0], b) and c.ev(v[1], b), simple=False)
 
@@ -235,8 +237,26 @@ def gen_slice(rng):
     return Pat("[_, _, ..]", lambda v, b: len(v) >= 2, top="slice")
 
 
-GEN = {"i32": gen_int, "bool": gen_bool, "opt": gen_opt, "str": gen_str, "string": gen_str, "name": gen_str,
-       "enum": gen_enum, "tup": gen_tup, "pstruct": gen_pstruct, "slice": gen_slice, "vec": gen_slice}
+def or_of(gen, p_or=0.18):
+    """An argument pattern that is itself an or-pattern `p | q | ..` of compound sub-patterns (the cases may differ
+    only in what a lossy rendering drops: struct fields, payloads): every case counts."""
+    def g(rng):
+        if rng.random() >= p_or:
+            return gen(rng)
+        cases = [gen(rng) for _ in range(rng.choice([2, 2, 3]))]
+        if any(c.src == "_" or c.binds for c in cases):
+            return cases[0]
+        return Pat(" | ".join(c.src for c in cases), lambda v, b, cases=cases: any(c.ev(v, b) for c in cases),
+                   simple=False, top=cases[0].top if all(c.top == cases[0].top for c in cases) else "other")
+    return g
+
+
+GEN = {"i32": gen_int, "bool": gen_bool, "opt": or_of(gen_opt), "str": gen_str, "string": gen_str, "name": gen_str,
+       "enum": or_of(gen_enum), "tup": gen_tup, "pstruct": or_of(gen_pstruct, 0.3), "slice": gen_slice,
+       "vec": gen_slice}
+# (calibration: no argument-level or-pattern of *tuple* patterns - `(1, 5) | (3, 1), "x"` starts with a parenthesis
+# followed by `|`, which the input grammar reads as the disjunctive form `(..) | (..)`: "Expected tuple" /
+# "Excessive tokens" at expansion time, nothing is executed)
 
 CMP_TYPES = {"i32": lambda v: f"&{v}", "opt": lambda v: "&" + _opt(v), "tup": lambda v: f"&({v[0]}, {v[1]})",
              "enum": lambda v: "&" + _enum(v)}
@@ -573,6 +593,17 @@ def render_case(c: Case, idx: int):
     else:
         ordered_decl = (f"        let (line, ordered) = (line!(), Unimock::new(M::m.next_call(matching!({m_src}))"
                         f".returns(1)).no_verify_in_drop());")
+    # C19: the same pattern declared twice on a strict mock - the "no matching call patterns" report must attribute
+    # every rejected position to the pattern that rejected it (`call pattern #P, input #I`)
+    pair_decl = pair_call = ""
+    if len(c.alts) == 1 and not c.guard and n > 0:
+        pair_decl = (f"    let pair = Unimock::new((M::m.each_call(matching!({m_src})).returns(1), "
+                     f"M::m.each_call(matching!({m_src})).returns(1))).no_verify_in_drop();")
+        pair_call = (f"        if !r {{\n"
+                     f"            if let Err(p) = std::panic::catch_unwind(std::panic::AssertUnwindSafe(|| pair.m({args}))) {{\n"
+                     f"                ev({idx}, \"pair_msg\", &[panic_text(p)], &[]);\n"
+                     f"            }}\n"
+                     f"        }}")
     text = f"""// pattern case {idx}: {c.key()}
 use super::support::*;
 use super::prelude::*;
@@ -591,6 +622,7 @@ pub fn run() {{
     let mut bits_o = String::new();
     let mut bits_r = String::new();
     let unordered = Unimock::new_partial(M::m.each_call(matching!({m_src})).returns(1)).no_verify_in_drop();
+{pair_decl}
 {loops_open}
         let r: bool = {ref_match};
         bits_r.push(if r {{ '1' }} else {{ '0' }});
@@ -605,6 +637,7 @@ pub fn run() {{
                 ev({idx}, "reject_msg", &[panic_text(p), line.to_string(), {dbg}], &[]);
             }}
         }}
+{pair_call}
 {loops_close}
     ev({idx}, "bits", &[bits_u, bits_o, bits_r], &[]);
 }}
@@ -691,4 +724,14 @@ def check_messages(exp, events):
                 # the value is shown as the argument's Debug, or as the Debug of its AsRef<str> view
                 if dbg[pos] not in report and exp["coerced_debug"][k][pos] not in report:
                     return f"mismatch report lacks the actual value {dbg[pos]} of input #{pos}: {text[:400]!r}"
+    # the pattern declared twice: every rejected position is attributed to pattern #0 and to pattern #1
+    pair = [e for e in events if e["k"] == "pair_msg"]
+    if exp["per_arg_rejections"] is not None and len(pair) == len(rejected):
+        for k, e in zip(rejected, pair):
+            text = ansi.sub("", e["p"][0])
+            want = sorted((pno, pos) for pno in (0, 1) for pos in exp["per_arg_rejections"][k])
+            got = sorted({(int(a), int(b)) for a, b in re.findall(r"call pattern #(\d+), input #(\d+)", text)})
+            if want and got != want:
+                return (f"two declarations of the pattern reject call {exp['domain_debug'][k]}: the report attributes "
+                        f"(pattern, input) = {got}, the rejecting sub-patterns are {want}: {text[:500]!r}")
     return None
